@@ -298,6 +298,63 @@ fn lx(rep: &mut Report, thorough: bool) {
         Ok(out)
     });
     drop(rt);
+    // ---- an incomplete preamble, a long silence (connection kept open), then frames: still no session.
+    //      Current-thread runtime whose clock is jumped during the silence.
+    let gap_res: Result<Vec<(String, Vec<(String, String)>)>, String> = tokio::runtime::Builder::new_current_thread().enable_all().build().unwrap().block_on(async {
+        let lx = start_lx(PW, PW, pool_cfg(3600, 3600, 1), false, false).await?;
+        let target = start_target("127.0.0.1", TargetMode::Sink, vec![]).await;
+        let mut out = vec![];
+        let mut idx = 0usize;
+        for gap in if thorough { vec![11u64, 31, 61, 301, 3601] } else { vec![11u64, 31, 301] } {
+            for k in [0usize, 1, 16, 31] {
+                idx += 1;
+                let name = format!("first {k} bytes of the right hash, {gap} s of silence on the open connection, then Settings+SYN+destination+data");
+                let mut v = vec![];
+                let cfg = anytls_rs::util::tls::create_client_config().unwrap();
+                let connector = tokio_rustls::TlsConnector::from(cfg);
+                let Ok(tcp) = tokio::net::TcpStream::connect(lx.server_addr).await else { continue };
+                let _ = tcp.set_nodelay(true);
+                let Ok(mut tls) = connector.connect(tokio_rustls::rustls::pki_types::ServerName::try_from("localhost").unwrap(), tcp).await else { continue };
+                let _ = tls.write_all(&good[..k]).await;
+                let _ = tls.flush().await;
+                crate::lx::clock_jump(gap).await;
+                let marker = format!("gapmarker-{idx}-").into_bytes();
+                let mut bytes = vec![];
+                bytes.extend_from_slice(&enc(SETTINGS, 0, b"v=2\nclient=x\npadding-md5=0"));
+                bytes.extend_from_slice(&enc(SYN, 1, b""));
+                let mut dest = vec![1u8, 127, 0, 0, 1];
+                dest.extend_from_slice(&target.addr.port().to_be_bytes());
+                bytes.extend_from_slice(&enc(PSH, 1, &dest));
+                bytes.extend_from_slice(&enc(PSH, 1, &marker));
+                bytes.extend_from_slice(&enc(HEART_REQ, 0, b""));
+                let _ = tls.write_all(&bytes).await;
+                let _ = tls.flush().await;
+                let (got, _closed) = read_all_or_idle(&mut tls, 700).await;
+                if !got.is_empty() {
+                    v.push(("C06:protocol-reply-to-unauthenticated-peer".to_string(), format!("{name}: the server sent {} application bytes: {:02x?}", got.len(), &got[..got.len().min(24)])));
+                }
+                if target.conns.lock().unwrap().iter().any(|c| c.lock().unwrap().received.starts_with(&marker)) {
+                    v.push(("C06:wrong-preamble-accepted".to_string(), format!("{name}: the target received the stream's data")));
+                }
+                out.push((name, v));
+            }
+        }
+        if target.accepted() != 0 {
+            out.push(("gap cases, target".to_string(), vec![("C06:outbound-connection-for-unauthenticated-peer".to_string(), format!("the target accepted {} connection(s) although no peer authenticated", target.accepted()))]));
+        }
+        Ok(out)
+    });
+    match gap_res {
+        Err(e) => rep.machinery(format!("LX (gaps) start failed: {e}")),
+        Ok(all) => {
+            for (name, v) in all {
+                rep.case(Some(&format!("lx {name}")));
+                for (k, d) in v {
+                    rep.violation(&k, &d, json!({"engine": "LX", "case": name}));
+                }
+            }
+        }
+    }
     match res {
         Err(e) => rep.machinery(format!("LX start failed: {e}")),
         Ok(all) => {
@@ -324,5 +381,5 @@ pub fn run(tier: Tier) -> i32 {
     ix(&mut rep, thorough);
     lx(&mut rep, thorough);
     rep.sample(json!({"case": "bit flip 17 of the right hash, padding 0, followed by valid Settings+SYN+destination+data"}));
-    rep.finish("IX at authenticate_client over a byte-counting reader: right hash; all 256 bit flips; single-byte substitutions (thorough: all 32x255); k-byte prefixes/suffixes; 12 related passwords; every declared padding length 0..=65535 followed by a sentinel frame; every truncation for padding {0,1,30,300}; every 1-cut (and 2-cut) fragmentation and byte-at-a-time; LX: the same families as real TLS connections to the real Server (bad: zero reply bytes, connection closed by the server, target never contacted; good: data reaches the target); non-trivial = distinct case")
+    rep.finish("IX at authenticate_client over a byte-counting reader: right hash; all 256 bit flips; single-byte substitutions (thorough: all 32x255); k-byte prefixes/suffixes; 12 related passwords; every declared padding length 0..=65535 followed by a sentinel frame; every truncation for padding {0,1,30,300}; every 1-cut (and 2-cut) fragmentation and byte-at-a-time; LX: the same families as real TLS connections to the real Server (bad: zero reply bytes, connection closed by the server, target never contacted; good: data reaches the target), plus incomplete preambles followed by 11 s .. 301 s of silence on the open connection and then frames; non-trivial = distinct case")
 }
